@@ -36,7 +36,7 @@ class TLCError(Exception):
 
 
 def _java(extra_props=()):
-    return ["java", "-XX:+UseParallelGC", "-Xmx8g", *extra_props, "-cp", JAR, "tlc2.TLC"]
+    return ["java", "-XX:+UseParallelGC", "-Xmx8g", "-Xss256m", *extra_props, "-cp", JAR, "tlc2.TLC"]
 
 
 _STATS = re.compile(r"(\d+) states generated, (\d+) distinct states found")
@@ -232,6 +232,7 @@ def parse_sim_file(text):
     return beh
 
 
+_REACHED = re.compile(r'<<\s*"REACHED"')
 _ACC = re.compile(r"<<\"(ACCEPTED|REACHED)\", (.*)>>\s*$", re.M | re.S)
 
 
@@ -256,14 +257,31 @@ def validate_traces(spec, cfg, trace_obj, *, timeout=900, dfs=True, extra_env=No
     finally:
         shutil.rmtree(d, ignore_errors=True)
     reached = {}
-    for line in r.out.splitlines():
-        line = line.strip()
-        if line.startswith('<<"REACHED"'):
-            v = tlaval.parse_value(line)
-            f = v[1]
-            if isinstance(f, list):  # function over 1..n printed as sequence
-                f = {i + 1: x for i, x in enumerate(f)}
-            reached.update(f)
+    out = r.out
+    mm = _REACHED.search(out)
+    k = mm.start() if mm else -1
+    while k >= 0:
+        # bracket matching: TLC wraps long values over several lines
+        depth, j = 0, k
+        while j < len(out):
+            if out.startswith("<<", j):
+                depth += 1
+                j += 2
+                continue
+            if out.startswith(">>", j):
+                depth -= 1
+                j += 2
+                if depth == 0:
+                    break
+                continue
+            j += 1
+        v = tlaval.parse_value(out[k:j])
+        f = v[1]
+        if isinstance(f, list):  # function over 1..n printed as a sequence
+            f = {i + 1: x for i, x in enumerate(f)}
+        reached.update(f)
+        mm = _REACHED.search(out, j)
+        k = mm.start() if mm else -1
     return reached, r
 
 
